@@ -1,0 +1,21 @@
+//go:build verif
+
+package pppoe
+
+// Verification hook for the SessionManager (property C20 of /verif).
+// Add-only, compiled only with -tags verif.  No behaviour of the package is changed.
+
+// SetNextIDForVerif pre-sets the session id counter so that the harness can reach the
+// uint16 wrap-around (65535 -> 0 -> 1) without creating 65535 sessions first.
+func (m *SessionManager) SetNextIDForVerif(id uint16) {
+	m.mu.Lock()
+	defer m.mu.Unlock()
+	m.nextID = id
+}
+
+// NextIDForVerif returns the current value of the session id counter.
+func (m *SessionManager) NextIDForVerif() uint16 {
+	m.mu.RLock()
+	defer m.mu.RUnlock()
+	return m.nextID
+}
